@@ -55,6 +55,9 @@ META["rule"] += (
 META["rule"] += (
     " " + 'Added after the third round: recurrence networks by `set_adaptive_neighborhood_size(m, order=...)` on tie-free data with the order renumbered along; 40 % consecutive layers and a quarter two-component graphs for the group measures, queried in random order; 30 % of the plain networks rebuilt from the renumbered edge list; time-symmetric visibility measures (boundary corrected degree / closeness, trans betweenness) under reversal.')
 
+META["rule"] += (
+    " " + 'Added after the fifth round: 30 % of the plain networks enter through Network.FromIGraph with an igraph object whose links are listed in a random order (node weights and link attribute on the igraph object); the directed switch as bool / np.bool_ / 0-1.')
+
 HIST = ("distribution", "cdf", "histogram", "entropy")
 # nsi_degree_histogram & co. bin float values: when all nodes have the same
 # n.s.i. degree, rounding decides the bin (frequency histograms are outside
